@@ -179,10 +179,12 @@ pub struct CaseFile {
     pub bytes: Vec<u8>,
     pub tier: Tier,
     pub kind: String,
+    /// decoder version the case was found with (absent = 1)
+    pub decoder: u32,
 }
 pub fn write_case_file(path: &Path, id: &str, key: &str, tier: Tier, bytes: &[u8], msg: &str, trace: &[String], build: &str) {
     let mut s = String::new();
-    s.push_str(&format!("property: {id}\nkey: {key}\ntier: {}\nbuild: {build}\nkind: bytes\nbytes: {}\nmessage: {}\ntrace:\n", tier.name(), hex(bytes), msg.replace('\n', " ")));
+    s.push_str(&format!("property: {id}\nkey: {key}\ntier: {}\nbuild: {build}\nkind: bytes\ndecoder: {}\nbytes: {}\nmessage: {}\ntrace:\n", tier.name(), crate::choice::dv(), hex(bytes), msg.replace('\n', " ")));
     for l in trace {
         s.push_str("  ");
         s.push_str(l);
@@ -192,7 +194,7 @@ pub fn write_case_file(path: &Path, id: &str, key: &str, tier: Tier, bytes: &[u8
 }
 pub fn read_case_file(path: &Path) -> Option<CaseFile> {
     let s = std::fs::read_to_string(path).ok()?;
-    let mut c = CaseFile { property: String::new(), key: String::new(), bytes: vec![], tier: Tier::Quick, kind: "bytes".into() };
+    let mut c = CaseFile { property: String::new(), key: String::new(), bytes: vec![], tier: Tier::Quick, kind: "bytes".into(), decoder: 1 };
     for l in s.lines() {
         if let Some(v) = l.strip_prefix("property: ") {
             c.property = v.trim().into()
@@ -202,6 +204,8 @@ pub fn read_case_file(path: &Path) -> Option<CaseFile> {
             c.bytes = unhex(v)
         } else if let Some(v) = l.strip_prefix("kind: ") {
             c.kind = v.trim().into()
+        } else if let Some(v) = l.strip_prefix("decoder: ") {
+            c.decoder = v.trim().parse().unwrap_or(1)
         } else if let Some(v) = l.strip_prefix("tier: ") {
             c.tier = if v.trim() == "thorough" { Tier::Thorough } else { Tier::Quick }
         } else if l.starts_with("trace:") {
@@ -213,7 +217,9 @@ pub fn read_case_file(path: &Path) -> Option<CaseFile> {
 
 /// re-execute a saved case; returns the failures of its property
 pub fn replay(spec: &PropSpec, cf: &CaseFile, verbose: bool) -> Vec<Failure> {
+    crate::choice::set_decoder_version(cf.decoder);
     let out = (spec.run)(&cf.bytes, cf.tier);
+    crate::choice::set_decoder_version(crate::choice::LATEST_DECODER);
     if verbose {
         for l in &out.trace {
             println!("  {l}");
